@@ -8,7 +8,7 @@ import interp
 from common import Result, pmap, compare, VERIF, canon_py
 
 ID = 'C05'
-COQ_FILES = ['Properties/C05.v', 'Proofs/Whitespace.v', 'Proofs/LexicalProofs.v', 'Proofs/Digits.v', 'Gen/Grammar.v']
+COQ_FILES = ['Properties/C05.v', 'Proofs/Separators.v', 'Proofs/LRfull.v', 'Proofs/Whitespace.v', 'Proofs/LexicalProofs.v', 'Proofs/Digits.v', 'Gen/Grammar.v']
 TRUSTED = [
     'Gen/Grammar.v regenerated each run (tables, lexer rule order and regex texts compared with the ones Model/Lexer.v '
     'transcribes, the set of \\s code points of this interpreter)',
@@ -18,7 +18,7 @@ TRUSTED = [
 EXPLANATION = ('Coq theorems: integer / decimal / percent / power literals evaluate to exactly the number spelled, a quoted literal '
                'to exactly its content; white space - any amount, possibly none - at ANY subset of the token boundaries leaves the token sequence unchanged '
                'whenever the local condition on the next character holds (punctuation may be followed by anything; a number, name, cell '
-               'or text by white space, an operator, a separator or a closing bracket; a function name by its parenthesis only); for every '
+               'or text by white space, an operator, a separator or a closing bracket; a function name by its parenthesis only); the three separators, chosen independently at every call of a formula of the reference grammar, never change the outcome (any number of arguments, any nesting); for every '
                'present/absent pattern of up to 6 slots the three separators agree and an accepted call passes exactly the slot '
                'list with blanks (evaluation of the real driver on the generated tables); array literal shapes; cell labels are '
                'case-insensitive. Tied to the code by the lexer correspondence (every string of length <= 3/4 over 26 class '
